@@ -49,6 +49,9 @@ pub struct CliCase {
 	/// earlier run with another key type
 	#[serde(default)]
 	pub stale: bool,
+	/// the output directory's last component is not valid UTF-8 (a Latin-1 file name, legal here)
+	#[serde(default)]
+	pub non_utf8_dir: bool,
 	pub invalid: Option<Invalid>,
 }
 
@@ -94,7 +97,12 @@ pub fn check_cli(c: &CliCase, info: &mut CaseInfo) -> Result<(), String> {
 }
 
 fn run_case(c: &CliCase, exe: &str, scratch: &std::path::Path, info: &mut CaseInfo) -> Result<(), String> {
-	let out_dir = if c.out_rel.is_empty() { scratch.to_path_buf() } else { scratch.join(&c.out_rel) };
+	let mut out_dir = if c.out_rel.is_empty() { scratch.to_path_buf() } else { scratch.join(&c.out_rel) };
+	if c.non_utf8_dir {
+		use std::os::unix::ffi::OsStringExt;
+		out_dir = out_dir.join(std::ffi::OsString::from_vec(b"r\xe9pertoire \xff".to_vec()));
+		info.class("output-dir:not-utf8");
+	}
 	if c.precreate {
 		std::fs::create_dir_all(&out_dir).map_err(|e| format!("INTERNAL: {e}"))?;
 	}
@@ -388,7 +396,7 @@ fn cli_case() -> BoxedStrategy<CliCase> {
 			prop::option::of(file_name()),
 			prop::option::of(file_name()),
 			prop_oneof![2 => Just(String::new()), 1 => Just("out".to_string()), 1 => Just("a/b c/ü".to_string()), 1 => file_name()],
-			(any::<bool>(), prop::bool::weighted(0.25)),
+			(any::<bool>(), prop::bool::weighted(0.25), prop::bool::weighted(0.08)),
 			prop_oneof![
 				6 => Just(None),
 				// a country string with exactly one character outside the PrintableString alphabet, at any position
@@ -412,7 +420,7 @@ fn cli_case() -> BoxedStrategy<CliCase> {
 			],
 		),
 	)
-		.prop_map(|((build, alg, sans, common_name, country, organization, client_auth, server_auth), (cert_name, ca_name, out_rel, (precreate, stale), invalid))| {
+		.prop_map(|((build, alg, sans, common_name, country, organization, client_auth, server_auth), (cert_name, ca_name, out_rel, (precreate, stale, non_utf8_dir), invalid))| {
 			let mut build = build;
 			let mut alg = alg.map(|s| s.to_string());
 			// algorithm offered by the build
@@ -440,6 +448,7 @@ fn cli_case() -> BoxedStrategy<CliCase> {
 				out_rel,
 				precreate,
 				stale,
+				non_utf8_dir,
 				invalid,
 			}
 		})
